@@ -73,3 +73,28 @@ Definition solution_of (ops : list op) (c : solvercfg) (ivals : list (string * Z
   | RunOk (Some st) => solution_report (build_solution c st (env_of ivals bvals) delta t0)
   | _ => ["NORUN"]
   end.
+
+(* the solver set-up under a configuration (observables O3 under the configuration grid, O4 for debug) *)
+Definition show_prio (p : priority) : string :=
+  match p with PrPareto => "pareto" | PrLex => "lex" | PrBox => "box" | PrWeight => "weight" end.
+Definition show_dirn (d : dirn) : string := match d with DMin => "min" | DMax => "max" end.
+Definition setup_report (c : solvercfg) (ops : list op) : list string :=
+  match run ops with
+  | RunOk (Some st) =>
+      let su := solver_setup c st in
+      let a := su_asserts su in
+      ("RUN ok" :: decls (map snd a ++ map (fun dt => FEq (snd dt) (snd dt)) (su_directives su)))
+      ++ [match su_kind su with
+          | SkOptimize p => "KIND optimize " ++ show_prio p
+          | SkSolver => "KIND solver" | SkSolverFor _ => "KIND solverfor" end;
+          "TRACKED " ++ (if su_tracked su then "true" else "false")]
+      ++ map (fun '(g, f) => "A " ++ show_tag g ++ " " ++ show_f f) a
+      ++ map (fun '(d, t) => "DIR " ++ show_dirn d ++ " " ++ show_t t) (su_directives su)
+      ++ match su_objective su with
+         | Some (t, d, b) => ["OBJ " ++ show_dirn d ++ " " ++ show_t t ++ " "
+                              ++ match b with Some (lo, hi) => show_Z lo ++ " " ++ show_Z hi | None => "none" end]
+         | None => ["OBJ none"] end
+  | RunOk None => ["RUN ok"; "NOPROBLEM"]
+  | RunErr i => ["RUN err " ++ show_nat i]
+  | RunUnsup i => ["RUN unsup " ++ show_nat i]
+  end.
